@@ -34,15 +34,16 @@ def translate(chk):
             status["counter:" + cm[1]] = "translated"
         except Declined as e:
             status["counter:" + cm[1]] = f"declined: {e}"
+    calls = None
     try:
-        status["model_calls"] = c10_tree.model_calls()
+        calls, status["model_calls"] = c10_tree.model_calls()
     except Declined as e:
         status["model_calls"] = f"declined: {e}"
     chk.translator = status
-    return tree, counters
+    return tree, counters, calls
 
 
-def today(chk, tree, counters):
+def today(chk, tree, counters, calls=None):
     """today-lemmas over the regenerated skeletons."""
     if tree is not None:
         txt = common.COQ_HEADER + "From NessaiV Require Import Model.C10_Batch Proofs.C10_Batch_proofs.\n"
@@ -57,6 +58,14 @@ def today(chk, tree, counters):
                 "Proof. intros A B f fv pmap i H1 H2 H3 l. exact (checker_sound f fv pmap i H1 H2 H3 sk_now l today). Qed.\n")
         ok, _, err = chk.coq_run("today_tree", txt)
         chk.oblige("today: tree_ok sk_now = true (regenerated batch_evaluate_function) + instantiated soundness",
+                   "today", ok, err)
+    if calls is not None:
+        txt = common.COQ_HEADER + "From NessaiV Require Import Model.C10_Batch Proofs.C10_Batch_proofs.\n"
+        txt += f"Definition calls_now : list (fid * mcall) := {calls}.\n"
+        txt += "Lemma today : calls_ok calls_now = true.\nProof. vm_compute. reflexivity. Qed.\n"
+        ok, _, err = chk.coq_run("today_calls", txt)
+        chk.oblige("today: calls_ok (regenerated call table of Model.batch_evaluate_log_likelihood / _log_prior / "
+                   "_log_prior_unit_hypercube: function, vectorisation flag and pool wrapper belong together)",
                    "today", ok, err)
     for name, effs in counters.items():
         txt = common.COQ_HEADER + "From NessaiV Require Import Model.C10_Batch Proofs.C10_Batch_proofs.\n"
@@ -101,7 +110,7 @@ def gen_cases(chk):
     model_ns = [0, 1, 2, 5, 9] if chk.tier == "quick" else list(range(0, 25))
     for n in model_ns:
         fvals = [rng.randrange(0, 50) for _ in range(n)]
-        for which in ("likelihood", "prior", "single"):
+        for which in ("likelihood", "prior", "prior_uh", "single"):
             for pool in ("none", "fake"):
                 for vm, fkind in (("auto", "vec"), ("auto", "scalar"), ("force_true", "vec"), ("force_false", "vec"),
                                   ("auto", "arr1")):
@@ -109,7 +118,11 @@ def gen_cases(chk):
                         for unit in ((False, True) if which != "single" else (False,)):
                             if chk.tier == "quick" and rng.random() < 0.5:
                                 continue
+                            if which == "prior_uh" and unit:
+                                continue
                             cases.append({"kind": "model", "which": which, "n": n, "fvals": fvals, "fkind": fkind,
+                                          "pkind": rng.choice(["vec", "scalar", "arr1"]) if vm == "auto" else fkind,
+                                          "ukind": rng.choice(["vec", "scalar", "arr1"]) if vm == "auto" else fkind,
                                           "pool": pool, "n_pool": rng.choice([1, 2, 3, 4]), "chunksize": k,
                                           "vect_mode": vm, "unit": unit,
                                           "parallelise_prior": rng.random() < 0.5})
@@ -152,11 +165,11 @@ def direct_predicate(c, r):
         return f"batch result {r['out']} != pointwise {r['ref']}"
     if c["kind"] == "model" and c["which"] in ("likelihood", "single") and r["delta"] != c["n"]:
         return f"likelihood_evaluations grew by {r['delta']} for a batch of {c['n']}"
-    if c["kind"] == "model" and c["which"] == "prior" and r["delta"] != 0:
+    if c["kind"] == "model" and c["which"] in ("prior", "prior_uh") and r["delta"] != 0:
         return f"likelihood_evaluations grew by {r['delta']} during a prior evaluation"
     if c.get("pool") == "real":
         return None  # calls happen in the worker processes and are not observable here
-    if sum(r.get("calls") or []) != c["n"] and not (c["kind"] == "model" and c["which"] == "prior"):
+    if sum(r.get("calls") or []) != c["n"] and not (c["kind"] == "model" and c["which"] in ("prior", "prior_uh")):
         return f"function saw {sum(r['calls'])} points for a batch of {c['n']} (calls {r['calls']})"
     k = c.get("chunksize") or 0
     vect = c.get("vectorised", r.get("vectorised"))
@@ -184,8 +197,8 @@ def run(chk):
         "numpy.array_split semantics as modelled in Model/C10_Batch.v (validated exhaustively on the grid each run)",
     ]
     chk.static_props(["C10"], ["C10_run"])
-    tree, counters = translate(chk)
-    today(chk, tree, counters)
+    tree, counters, calls = translate(chk)
+    today(chk, tree, counters, calls)
     tree_term = "sk_now" if tree is not None else HAND_TREE
     cases, real = gen_cases(chk)
     res = run_impl(chk, cases)
